@@ -91,6 +91,13 @@ CLAIMED["C06"] = {
     "technique": "contract-based deductive verification: exhaustive symbolic path exploration of the real function, linear-arithmetic obligations with Skolem competitor, If-case-split + exact identities",
 }
 
+CLAIMED["C17"] = {
+    "text": "proj_B_to_hull: through the quadprog contract each result row satisfies every facet inequality and no hull point is closer to the query (Skolem competitor), a query inside the hull is returned unchanged; alpha_for_B_with_P / B_with_P (origin interior, direction leaving through some facet; NaN idiom modelled with a poison flag): alpha > 0, alpha*b satisfies every facet inequality and one with equality; line_to_simplex: on the line, sums to c, between the points; proj_P_to_simplex: all-pairs branch fully symbolic (outputs on the plane and on segments joining a low to a high point, asserts reject exactly inadmissible c), qhull branch on concrete clouds with symbolic c (outputs on the plane and on crossing edges of hull facet simplices).",
+    "design_ref": "DESIGN.md section 6 C17",
+    "note": A_COMMON + " quadprog.solve_qp and scipy ConvexHull are assumed contracts (for concrete clouds the real qhull output is used). 'The outputs span the whole slice' (completeness) is a cited polytope fact; a native LP support-function oracle checks it on the concrete clouds and is labelled bounded. dims 2-3 quick, 2-4 thorough.",
+    "technique": "contract-based deductive verification: variational transfer through a QP contract, poison-flag model of the NaN idiom, If-case-split over point/plane configurations",
+}
+
 NOT_APPLICABLE = {}
 
 FIX_COMMITS = ["b2d156a (np.trapz -> trapezoid)", "1caec1a (negative fit targets no longer declared positive cvxpy parameters)", "f3b37fa (batched_iteration bs > n)", "b98cd56 (poisson baseline tiling)", "d30d941 (minimize .copy())", "35d91a0 (minimize reshape order)", "b90b02d (minimize padded slack)", "7019c2d (excitation baseline)", "3901923 (excitation per-sample)", "b370f4e (adaptive default solver)", "cef6319 (gamut apex = capture at lb)"]
